@@ -169,9 +169,22 @@ theorem convert_sigAlg (hes : Gen.jwtEmptyShown = true) (s : Bytes) :
     convert "sigAlg" (.str s) = some (algText s) := by
   simp [convert, hes]
 
-theorem convert_unixTime (hnd : Gen.jwtNumericDates = true) (n : Int) :
+theorem convert_unixTime (hnd : Gen.jwtNumericDates = true) (n : Int) (hr : inDateRange n = true) :
     convert "unixTime" (.num n) = some (Civil.fmtDateTime n) := by
-  simp [convert, hnd]
+  simp [convert, hnd, hr]
+
+/-- a string under a date name, with the verbatim fallback: shown as the date it spells, or as it stands -/
+theorem convert_unixTime_str (hes : Gen.jwtEmptyShown = true) (hfb : Gen.jwtDateStringFallback = true) (s : Bytes) :
+    convert "unixTime" (.str s) = some s ∨
+      ∃ i, atoi s = some i ∧ inDateRange i = true ∧ convert "unixTime" (.str s) = some (Civil.fmtDateTime i) := by
+  unfold convert
+  simp only [hes, hfb, true_or, if_true]
+  cases h : atoi s with
+  | none => exact Or.inl rfl
+  | some i =>
+    by_cases hr : inDateRange i = true
+    · exact Or.inr ⟨i, rfl, hr, by simp [hr]⟩
+    · exact Or.inl (by simp [hr])
 
 theorem registered_readback (hes : Gen.jwtEmptyShown = true) (order : List String) (m : List (Bytes × JVal))
     (k descr : String) (s : Bytes)
@@ -189,12 +202,24 @@ theorem alg_readback (hes : Gen.jwtEmptyShown = true) (m : List (Bytes × JVal))
   exact ⟨"alg", by decide, by rw [attrFn_some m "alg" descr "sigAlg" _ hp hv, convert_sigAlg hes]; rfl⟩
 
 theorem numeric_dates (hnd : Gen.jwtNumericDates = true) (order : List String) (m : List (Bytes × JVal))
-    (k descr : String) (n : Int)
+    (k descr : String) (n : Int) (hr : inDateRange n = true)
     (hk : k ∈ order) (hp : paramOf k = some (descr, "unixTime"))
     (hv : m.lookup (k.toList.map Char.toNat) = some (.num n)) :
     (⟨descr.toList.map Char.toNat, Civil.fmtDateTime n⟩ : Attr) ∈ attributesOfIn order m := by
   rw [attributesOf_eq, List.mem_filterMap]
-  exact ⟨k, hk, by rw [attrFn_some m k descr "unixTime" _ hp hv, convert_unixTime hnd]; rfl⟩
+  exact ⟨k, hk, by rw [attrFn_some m k descr "unixTime" _ hp hv, convert_unixTime hnd n hr]; rfl⟩
+
+theorem date_strings (hes : Gen.jwtEmptyShown = true) (hfb : Gen.jwtDateStringFallback = true) (order : List String)
+    (m : List (Bytes × JVal)) (k descr : String) (s : Bytes)
+    (hk : k ∈ order) (hp : paramOf k = some (descr, "unixTime"))
+    (hv : m.lookup (k.toList.map Char.toNat) = some (.str s)) :
+    (⟨descr.toList.map Char.toNat, s⟩ : Attr) ∈ attributesOfIn order m ∨
+      ∃ i, atoi s = some i ∧ inDateRange i = true ∧
+        (⟨descr.toList.map Char.toNat, Civil.fmtDateTime i⟩ : Attr) ∈ attributesOfIn order m := by
+  rw [attributesOf_eq]
+  rcases convert_unixTime_str hes hfb s with h | ⟨i, hi, hr, h⟩
+  · exact Or.inl (List.mem_filterMap.mpr ⟨k, hk, by rw [attrFn_some m k descr "unixTime" _ hp hv, h]; rfl⟩)
+  · exact Or.inr ⟨i, hi, hr, List.mem_filterMap.mpr ⟨k, hk, by rw [attrFn_some m k descr "unixTime" _ hp hv, h]; rfl⟩⟩
 
 theorem absent_not_shown (order : List String) (m : List (Bytes × JVal)) (a : Attr) (ha : a ∈ attributesOfIn order m) :
     ∃ k ∈ order, ∃ descr conv v, paramOf k = some (descr, conv) ∧
